@@ -283,7 +283,58 @@ def run(ctx):
 
 
 def replay(ctx, payload):
-    return True
+    """re-run the recorded history on the implementation: reproduced iff its last probe still differs from the same
+    probe on a freshly built table / function (or from the model, for a correspondence replay)"""
+    c = payload["case"]
+    if "ops" in c and "init" in c:                      # table history
+        w = world_from(c["spec"])
+        t = tablelevel.Table(w)
+        regs = list(c["init"])
+        for d in regs:
+            t.register(d, 0)
+        byenc = {}
+        last = None
+        for op in c["ops"]:
+            if op[0] == 1:
+                d = {"id": op[1][0], "pos": op[1][1], "kw": [[k, ty, k in op[1][4]] for k, ty in op[1][2]], "npos_req": op[1][3], "prio": op[1][5]}
+                t.register(d, 0)
+                regs.append(d)
+            else:
+                key = op[2]
+                pos = [x[1] for x in key[0]]
+                kw = {str(k): tt[1] for k, tt in key[1]}
+                last = (t.get(None, pos, kw), pos, kw)
+        if last is None:
+            return False
+        ft = tablelevel.Table(world_from(c["spec"]))
+        for d in regs:
+            ft.register(d, 0)
+        fresh = ft.get(None, last[1], last[2])
+        m = progs.dec_outcome(model.run_cases([[14, w.encode(), [progs.enc_method(d, 0) for d in c["init"]], c["ops"]]])[0][-1][0])
+        print(json.dumps({"after_history": last[0], "fresh": fresh, "model": m}))
+        return last[0] != fresh or last[0] != m
+    if "mops" in c and "live" in c:                     # function history
+        w = world_from(c["spec"])
+        b = progs.Built(w, [])
+        byid = {}
+        for d in c["live"]:
+            byid[d["id"]] = d
+        # the recorded operations carry the encoded methods; decode the ones that were unregistered later
+        for op in c["mops"]:
+            if op[0] == 0:
+                e = op[1]
+                d = byid.get(e[0]) or {"id": e[0], "pos": e[1], "kw": [[k, ty, k in e[4]] for k, ty in e[2]], "npos_req": e[3], "prio": e[5]}
+                byid[e[0]] = d
+                b.register(d)
+            else:
+                b.unregister(op[1])
+        fresh = progs.Built(world_from(c["spec"]), c["live"])
+        call = c["calls"][0]
+        got = R.normalise(b.call([w.instance(x) for x in call["pos"]], {f"k{k}": w.instance(x) for k, x in call["kw"].items()})[0], c["live"], call)
+        exp = R.normalise(fresh.call([fresh.w.instance(x) for x in call["pos"]], {f"k{k}": fresh.w.instance(x) for k, x in call["kw"].items()})[0], c["live"], call)
+        print(json.dumps({"long_lived": got, "fresh": exp}))
+        return got != exp
+    return True      # other history kinds (names / linkback) are re-run through the check itself: ./check C05 --seed <seed of the replay file>
 
 
 def replay_finding(ctx, e):
